@@ -1,6 +1,13 @@
 (* C11 — extension resolution is conservative, idempotent and invisible on the wire.
    Model: model/Resolve.v (mirrors tys.py / ops.py / hugr/base.py / ext.py after the repairs D15-D17).
-   Spec: spec/ResolveS.v.  Guards, all visible in the statements:
+   Spec: spec/ResolveS.v.
+   The property leaves one thing open: "an operation's free-text description MAY be replaced by its
+   definition's".  The model takes that choice as an oracle `keep : descr_choice` (one bit per opaque
+   operation: true = the implementation keeps the description the operation was loaded with, false = it
+   writes the definition's); every theorem below is stated for every oracle, so it speaks about every
+   implementation the property admits.  Nothing else is left open: a third string is excluded by the
+   relation ROp (spec) and by the model.
+   Guards, all visible in the statements:
      RegWF reg          the registry's dictionaries are keyed by the objects' own names, each definition
                         names the extension it is filed in, extension names are not empty;
      consistent reg x   every recorded bound of an opaque type that has a definition is the bound that
@@ -13,7 +20,7 @@ From HV Require Import lib.Harness model.Types model.Resolve spec.ResolveS proof
 From HV Require Import model.SerialHugr model.ResolveHugr spec.ResolveHugrS proofs.ResolveHugrP.
 
 (* ---- replaced exactly when the registry holds an extension of that name with a definition of that name *)
-Theorem C11_resolve_exactly_when_defined : forall reg, RegWF reg ->
+Theorem C11_resolve_exactly_when_defined : forall reg keep, RegWF reg ->
   (forall e id args b,
      ((exists d, defines_ty reg e id d /\
                  resolve_ty reg (TOpaque e id args b) = TExt d (map (resolve_arg reg) args) Generic)
@@ -22,18 +29,19 @@ Theorem C11_resolve_exactly_when_defined : forall reg, RegWF reg ->
       <-> ~ resolvable_ty reg e id)) /\
   (forall c,
      ((exists d, defines_op reg (c_ext c) (c_name c) d /\
-                 resolve_op reg (OCustom c) =
-                 OExt {| x_def := d; x_sig := resolve_ft reg (c_sig c); x_args := map (resolve_arg reg) (c_args c) |})
+                 resolve_op reg keep (OCustom c) =
+                 OExt {| x_def := d; x_sig := resolve_ft reg (c_sig c); x_args := map (resolve_arg reg) (c_args c);
+                       x_descr := if keep c then c_descr c else od_descr d |})
       <-> resolvable_op reg (c_ext c) (c_name c)) /\
-     (resolve_op reg (OCustom c) = OCustom c <-> ~ resolvable_op reg (c_ext c) (c_name c))).
+     (resolve_op reg keep (OCustom c) = OCustom c <-> ~ resolvable_op reg (c_ext c) (c_name c))).
 Proof. exact resolve_exactly_when_defined_thm. Qed.
 
 (* ---- the result is the input with exactly the resolvable opaque types (operations) replaced by the
    definition filed under their name, at every position, and every other node identical *)
-Theorem C11_resolve_pointwise : forall reg, RegWF reg ->
+Theorem C11_resolve_pointwise : forall reg keep, RegWF reg ->
   (forall t, RTy reg t (resolve_ty reg t)) /\ (forall a, RArg reg a (resolve_arg reg a)) /\
-  (forall o, ROp reg o (resolve_op reg o)) /\
-  (forall h, Forall2 (ROp reg) h (resolve_hugr reg h)).
+  (forall o, ROp reg o (resolve_op reg keep o)) /\
+  (forall h, Forall2 (ROp reg) h (resolve_hugr reg keep h)).
 Proof. exact resolve_pointwise_thm. Qed.
 
 (* what the monitor computes on the implementation's result is sound for that relation *)
@@ -60,38 +68,44 @@ Proof. exact remains_clean_both. Qed.
 
 (* ---- nothing to resolve: the object is returned as it was; operations that are not opaque, and opaque
    operations without a definition (including the opaque types of their signature), are not touched *)
-Theorem C11_resolve_untouched_otherwise : forall reg,
+Theorem C11_resolve_untouched_otherwise : forall reg keep,
   (forall t, clean reg t = true -> resolve_ty reg t = t) /\
   (forall a, clean_arg reg a = true -> resolve_arg reg a = a) /\
-  (forall x, resolve_op reg (OExt x) = OExt x) /\ (forall k, resolve_op reg (OOther k) = OOther k) /\
-  (RegWF reg -> forall c, ~ resolvable_op reg (c_ext c) (c_name c) -> resolve_op reg (OCustom c) = OCustom c).
+  (forall x, resolve_op reg keep (OExt x) = OExt x) /\ (forall k, resolve_op reg keep (OOther k) = OOther k) /\
+  (RegWF reg -> forall c, ~ resolvable_op reg (c_ext c) (c_name c) -> resolve_op reg keep (OCustom c) = OCustom c).
 Proof. exact resolve_untouched_otherwise_thm. Qed.
 
 (* ---- the serialised form does not change; for an operation the description may become the definition's,
    and nothing else changes; for a HUGR, node by node *)
-Theorem C11_resolve_preserves_encoding : forall reg, RegWF reg ->
+Theorem C11_resolve_preserves_encoding : forall reg keep, RegWF reg ->
   (forall t, consistent reg t = true -> ser_ty (resolve_ty reg t) = ser_ty t) /\
   (forall a, consistent_arg reg a = true -> ser_arg (resolve_arg reg a) = ser_arg a) /\
   (forall o s, consistent_op reg o = true -> ser_op o = Some s ->
-     exists s', ser_op (resolve_op reg o) = Some s' /\ same_but_descr reg s s') /\
+     exists s', ser_op (resolve_op reg keep o) = Some s' /\ same_but_descr reg s s') /\
   (forall h s, forallb (consistent_op reg) h = true -> ser_hugr h = Some s ->
-     exists s', ser_hugr (resolve_hugr reg h) = Some s' /\ Forall2 (same_but_descr reg) s s').
+     exists s', ser_hugr (resolve_hugr reg keep h) = Some s' /\ Forall2 (same_but_descr reg) s s') /\
+  (* both directions of "may be replaced": where the loaded description is kept the serial operation is
+     identical (also when serialising raises); where it is not, the description is the definition's *)
+  (forall o, consistent_op reg o = true -> (forall c, o = OCustom c -> keep c = true) ->
+     ser_op (resolve_op reg keep o) = ser_op o) /\
+  (forall c d s', defines_op reg (c_ext c) (c_name c) d -> keep c = false ->
+     ser_op (resolve_op reg keep (OCustom c)) = Some (OCustom s') -> c_descr s' = od_descr d).
 Proof. exact resolve_preserves_encoding_thm. Qed.
 
 (* ---- the exported model does not change (types, type arguments, operation symbol/arguments/signature) *)
-Theorem C11_resolve_preserves_model_export : forall reg, RegWF reg ->
+Theorem C11_resolve_preserves_model_export : forall reg keep, RegWF reg ->
   (forall t, to_model (resolve_ty reg t) = to_model t) /\
   (forall a, arg_to_model (resolve_arg reg a) = arg_to_model a) /\
-  (forall o, export_op (resolve_op reg o) = export_op o).
+  (forall o, export_op (resolve_op reg keep o) = export_op o).
 Proof. exact resolve_preserves_model_export_thm. Qed.
 
 (* ---- type bounds; signatures and port types of operations: the signature of the resolved operation is
    the resolved signature (same extension requirements), with as many ports, the same bounds port by
    port and the same serial form *)
-Theorem C11_resolve_preserves_facts : forall reg,
+Theorem C11_resolve_preserves_facts : forall reg keep,
   (forall t, consistent reg t = true -> tbound (resolve_ty reg t) = tbound t) /\
   (forall o f, outer_signature o = Some f ->
-     exists f', outer_signature (resolve_op reg o) = Some f' /\ (f' = f \/ f' = resolve_ft reg f)) /\
+     exists f', outer_signature (resolve_op reg keep o) = Some f' /\ (f' = f \/ f' = resolve_ft reg f)) /\
   (forall f, consistent_ft reg f = true ->
      ft_reqs (resolve_ft reg f) = ft_reqs f /\
      length (ft_in (resolve_ft reg f)) = length (ft_in f) /\ length (ft_out (resolve_ft reg f)) = length (ft_out f) /\
@@ -100,24 +114,26 @@ Theorem C11_resolve_preserves_facts : forall reg,
      (RegWF reg -> ser_ft (resolve_ft reg f) = ser_ft f)).
 Proof. exact resolve_preserves_facts_thm. Qed.
 
-(* ---- resolving twice equals resolving once (no guard) *)
-Theorem C11_resolve_idempotent : forall reg,
+(* ---- resolving twice equals resolving once (no guard; whatever the choices at the two calls) *)
+Theorem C11_resolve_idempotent : forall reg keep keep',
   (forall t, resolve_ty reg (resolve_ty reg t) = resolve_ty reg t) /\
   (forall a, resolve_arg reg (resolve_arg reg a) = resolve_arg reg a) /\
-  (forall o, resolve_op reg (resolve_op reg o) = resolve_op reg o) /\
-  (forall h, resolve_hugr reg (resolve_hugr reg h) = resolve_hugr reg h).
+  (forall o, resolve_op reg keep' (resolve_op reg keep o) = resolve_op reg keep o) /\
+  (forall h, resolve_hugr reg keep' (resolve_hugr reg keep h) = resolve_hugr reg keep h).
 Proof. exact resolve_idempotent_thm. Qed.
 
 (* ---- the guards are satisfiable by a registry with two type definitions and an operation definition, a
    sum holding List<T> inside an argument of an unknown opaque type, and an operation whose description
-   differs from its definition's *)
+   differs from its definition's: an implementation that takes the definition's changes the serial
+   description, one that keeps the loaded description leaves the serial operation identical *)
 Example C11_example :
   RegWF Ex.reg /\ no_ext Ex.t = true /\ consistent Ex.reg Ex.t = true /\ clean Ex.reg Ex.t = false /\
   resolve_ty Ex.reg Ex.t <> Ex.t /\ ser_ty (resolve_ty Ex.reg Ex.t) = Some Ex.t /\
   consistent_op Ex.reg (OCustom Ex.c) = true /\
-  (exists x, resolve_op Ex.reg (OCustom Ex.c) = OExt x) /\
+  (forall keep, exists x, resolve_op Ex.reg keep (OCustom Ex.c) = OExt x) /\
   (exists s s', ser_op (OCustom Ex.c) = Some (OCustom s) /\
-                ser_op (resolve_op Ex.reg (OCustom Ex.c)) = Some (OCustom s') /\ c_descr s <> c_descr s').
+                ser_op (resolve_op Ex.reg take_definitions (OCustom Ex.c)) = Some (OCustom s') /\ c_descr s <> c_descr s') /\
+  ser_op (resolve_op Ex.reg keep_loaded (OCustom Ex.c)) = ser_op (OCustom Ex.c).
 Proof. exact ex_nontrivial. Qed.
 
 (* ====================================================================================================
@@ -134,70 +150,76 @@ Proof. exact ex_nontrivial. Qed.
 
 (* ---- the loop `for node in self: self[node].op = ...` rewrites `op` fields and nothing else: it equals
    the node table with resolve_hop mapped over the operations, slot by slot *)
-Theorem C11_hugr_loop_is_map : forall reg h,
-  resolve_extensions reg h = map_hugr (resolve_hop reg) h /\
-  (forall i, get_node (resolve_extensions reg h) i = option_map (map_node (resolve_hop reg)) (get_node h i)).
+Theorem C11_hugr_loop_is_map : forall reg keep h,
+  resolve_extensions reg keep h = map_hugr (resolve_hop reg keep) h /\
+  (forall i, get_node (resolve_extensions reg keep h) i = option_map (map_node (resolve_hop reg keep)) (get_node h i)).
 Proof. exact hugr_loop_is_map_thm. Qed.
 
 (* ---- (a) the frame: root, links, holes, and per live node parent, children in order, metadata and recorded port
    counts are untouched; the live indices (iteration order) and the table length are the same *)
-Theorem C11_hugr_frame : forall reg h,
-  same_frame h (resolve_extensions reg h) /\ live (resolve_extensions reg h) = live h /\
-  length (h_nodes (resolve_extensions reg h)) = length (h_nodes h).
+Theorem C11_hugr_frame : forall reg keep h,
+  same_frame h (resolve_extensions reg keep h) /\ live (resolve_extensions reg keep h) = live h /\
+  length (h_nodes (resolve_extensions reg keep h)) = length (h_nodes h).
 Proof. exact hugr_frame_thm. Qed.
 
 (* ---- (a) exactly the opaque operations the registry defines are replaced, at every node of the HUGR, each as the
    per-operation relation ROp says; every other operation - constants with all they hold included - identical *)
-Theorem C11_hugr_resolve_pointwise : forall reg, RegWF reg ->
-  (forall h, RHugr reg h (resolve_extensions reg h)) /\ (forall o, RHop reg o (resolve_hop reg o)).
+Theorem C11_hugr_resolve_pointwise : forall reg keep, RegWF reg ->
+  (forall h, RHugr reg h (resolve_extensions reg keep h)) /\ (forall o, RHop reg o (resolve_hop reg keep o)).
 Proof. exact hugr_resolve_pointwise_thm. Qed.
 
 (* ---- (a) a node's operation changes iff it is an opaque operation with a definition in the registry; a HUGR
    without any is returned as it was; a node without one keeps its whole entry *)
-Theorem C11_hugr_only_defined_ops_change : forall reg,
-  (forall o, hop_holds (untouchable_op reg) o = true -> resolve_hop reg o = o) /\
-  (RegWF reg -> forall o, resolve_hop reg o = o -> hop_holds (untouchable_op reg) o = true) /\
-  (forall h, hugr_all (untouchable_op reg) h = true -> resolve_extensions reg h = h) /\
+Theorem C11_hugr_only_defined_ops_change : forall reg keep,
+  (forall o, hop_holds (untouchable_op reg) o = true -> resolve_hop reg keep o = o) /\
+  (RegWF reg -> forall o, resolve_hop reg keep o = o -> hop_holds (untouchable_op reg) o = true) /\
+  (forall h, hugr_all (untouchable_op reg) h = true -> resolve_extensions reg keep h = h) /\
   (forall h i n, get_node h i = Some n -> hop_holds (untouchable_op reg) (SerialHugr.n_op n) = true ->
-                 get_node (resolve_extensions reg h) i = Some n).
+                 get_node (resolve_extensions reg keep h) i = Some n).
 Proof. exact hugr_only_defined_ops_change_thm. Qed.
 
 (* ---- (a) function-valued constants and their bodies are part of the frame: a constant is returned as it is
    whatever its value holds, its node entry is unchanged, and both the monitor's boolean and the relation RHop
    accept nothing but the identical constant (a change inside the HUGR of a function value is a violation of
    "leaves everything else untouched") *)
-Theorem C11_hugr_constants_untouched : forall reg,
-  (forall v, resolve_hop reg (HConst v) = HConst v) /\
+Theorem C11_hugr_constants_untouched : forall reg keep,
+  (forall v, resolve_hop reg keep (HConst v) = HConst v) /\
   (forall h i n v, get_node h i = Some n -> SerialHugr.n_op n = HConst v ->
-                   get_node (resolve_extensions reg h) i = Some n) /\
+                   get_node (resolve_extensions reg keep h) i = Some n) /\
   (forall v o, rhop_b reg (HConst v) o = true -> o = HConst v) /\
   (forall v o, RHop reg (HConst v) o -> o = HConst v).
 Proof. exact hugr_constants_untouched_thm. Qed.
 
 (* ---- every depth, at HUGR level: in a HUGR as loading produces it (opaque operations only, no definition-backed
    type) no resolved operation keeps a resolvable opaque type at any depth of its signature or type arguments *)
-Theorem C11_hugr_reaches_every_depth : forall reg, RegWF reg ->
-  (forall h, hugr_all op_loaded h = true -> hugr_all (op_clean reg) (resolve_extensions reg h) = true) /\
-  (forall o, op_loaded o = true -> op_clean reg (resolve_op reg o) = true).
+Theorem C11_hugr_reaches_every_depth : forall reg keep, RegWF reg ->
+  (forall h, hugr_all op_loaded h = true -> hugr_all (op_clean reg) (resolve_extensions reg keep h) = true) /\
+  (forall o, op_loaded o = true -> op_clean reg (resolve_op reg keep o) = true).
 Proof. exact hugr_reaches_every_depth_thm. Qed.
 
 (* ---- (b) resolving twice equals resolving once, for the whole HUGR (no guard) *)
-Theorem C11_hugr_idempotent : forall reg,
-  (forall h, resolve_extensions reg (resolve_extensions reg h) = resolve_extensions reg h) /\
-  (forall o, resolve_hop reg (resolve_hop reg o) = resolve_hop reg o).
+Theorem C11_hugr_idempotent : forall reg keep keep',
+  (forall h, resolve_extensions reg keep' (resolve_extensions reg keep h) = resolve_extensions reg keep h) /\
+  (forall o, resolve_hop reg keep' (resolve_hop reg keep o) = resolve_hop reg keep o).
 Proof. exact hugr_idempotent_thm. Qed.
 
 (* ---- (c) the serialised document (Hugr._to_serial of model/SerialHugr.v with the encoder ser_hop; the documents
    of function values nested inside constants) is unchanged: same edges, same metadata, same parents, identical
    constants, same operations except that the description of an Extension operation at a node may have become
    that of a definition filed under its name *)
-Theorem C11_hugr_document_unchanged : forall reg, RegWF reg ->
+Theorem C11_hugr_document_unchanged : forall reg keep, RegWF reg ->
   (forall h s, consistent_hugr reg h = true -> hugr_doc h = Some s ->
-     exists s', hugr_doc (resolve_extensions reg h) = Some s' /\ SameDoc reg s s') /\
+     exists s', hugr_doc (resolve_extensions reg keep h) = Some s' /\ SameDoc reg s s') /\
   (forall b, ser_val (VFunc b) = match to_serial ser_hop hop_ndp md_is_nil b with
                                  | Some d => option_map SVFunc (seq_serial d)
                                  | None => None
-                                 end).
+                                 end) /\
+  (* both directions: a HUGR all of whose opaque operations keep their loaded description has the identical
+     document (also when serialising raises); an operation that does not keep it is written with its definition's *)
+  (forall h, consistent_hugr reg h = true -> hugr_all (keeps_descr keep) h = true ->
+     hugr_doc (resolve_extensions reg keep h) = hugr_doc h) /\
+  (forall c d s', defines_op reg (c_ext c) (c_name c) d -> keep c = false ->
+     ser_hop (resolve_hop reg keep (HOp (OCustom c))) = Some (SOp (OCustom s')) -> c_descr s' = od_descr d).
 Proof. exact hugr_document_thm. Qed.
 
 (* the same through an arbitrary encoder: for any `enc`, any dataflow-port-count function and any rewriting f of
@@ -222,19 +244,19 @@ Proof. exact document_frame_through_enc_thm. Qed.
 (* ---- (d) Hugr.port_type of every out port: identical, or (only at a node whose opaque operation has a definition)
    the resolved type; related by RTy; identical at nodes holding nothing the registry defines; same bound and
    same serial form; the dataflow port counts of every operation are unchanged *)
-Theorem C11_hugr_port_types : forall reg h i k,
-  (port_type (resolve_extensions reg h) i k = port_type h i k \/
+Theorem C11_hugr_port_types : forall reg keep h i k,
+  (port_type (resolve_extensions reg keep h) i k = port_type h i k \/
    exists n c, get_node h i = Some n /\ SerialHugr.n_op n = HOp (OCustom c) /\
                lookup_op reg (c_ext c) (c_name c) <> None /\
-               port_type (resolve_extensions reg h) i k = option_map (resolve_ty reg) (port_type h i k)) /\
-  (RegWF reg -> port_type_rel reg (port_type h i k) (port_type (resolve_extensions reg h) i k)) /\
+               port_type (resolve_extensions reg keep h) i k = option_map (resolve_ty reg) (port_type h i k)) /\
+  (RegWF reg -> port_type_rel reg (port_type h i k) (port_type (resolve_extensions reg keep h) i k)) /\
   (forall n, get_node h i = Some n -> hop_holds (untouchable_op reg) (SerialHugr.n_op n) = true ->
-             port_type (resolve_extensions reg h) i k = port_type h i k) /\
+             port_type (resolve_extensions reg keep h) i k = port_type h i k) /\
   (RegWF reg -> consistent_hugr reg h = true ->
-     option_map tbound (port_type (resolve_extensions reg h) i k) = option_map tbound (port_type h i k) /\
-     option_map ser_ty (port_type (resolve_extensions reg h) i k) = option_map ser_ty (port_type h i k)) /\
+     option_map tbound (port_type (resolve_extensions reg keep h) i k) = option_map tbound (port_type h i k) /\
+     option_map ser_ty (port_type (resolve_extensions reg keep h) i k) = option_map ser_ty (port_type h i k)) /\
   (forall d n, get_node h i = Some n ->
-     hop_ndp (resolve_hop reg (SerialHugr.n_op n)) d = hop_ndp (SerialHugr.n_op n) d).
+     hop_ndp (resolve_hop reg keep (SerialHugr.n_op n)) d = hop_ndp (SerialHugr.n_op n) d).
 Proof. exact hugr_port_types_thm. Qed.
 
 (* ---- what the monitor computes on the implementation's dumps is sound for the relations above *)
@@ -251,13 +273,17 @@ Proof. exact hugr_monitor_sound_thm. Qed.
 Example C11_hugr_example :
   RegWF Ex.reg /\ consistent_hugr Ex.reg ExH.h = true /\ hugr_all (untouchable_op Ex.reg) ExH.h = false /\
   get_node ExH.h 1 = None /\
-  hugr_eqb (resolve_extensions Ex.reg ExH.h) ExH.h = false /\ rhugr_b Ex.reg ExH.h (resolve_extensions Ex.reg ExH.h) = true /\
-  (exists s s', hugr_doc ExH.h = Some s /\ hugr_doc (resolve_extensions Ex.reg ExH.h) = Some s' /\
+  hugr_eqb (resolve_extensions Ex.reg take_definitions ExH.h) ExH.h = false /\ rhugr_b Ex.reg ExH.h (resolve_extensions Ex.reg take_definitions ExH.h) = true /\
+  (exists s s', hugr_doc ExH.h = Some s /\ hugr_doc (resolve_extensions Ex.reg take_definitions ExH.h) = Some s' /\
                 doc_eqb s s' = false /\ same_doc_b Ex.reg s s' = true) /\
-  (exists t, port_type ExH.h 2 0 = Some t /\ port_type (resolve_extensions Ex.reg ExH.h) 2 0 = Some (resolve_ty Ex.reg t) /\
+  (exists t, port_type ExH.h 2 0 = Some t /\ port_type (resolve_extensions Ex.reg take_definitions ExH.h) 2 0 = Some (resolve_ty Ex.reg t) /\
              ty_eqb (resolve_ty Ex.reg t) t = false) /\
   port_type ExH.h 2 1 = None /\
-  get_node (resolve_extensions Ex.reg ExH.h) 3 = get_node ExH.h 3 /\ hugr_all (untouchable_op Ex.reg) ExH.body = false.
+  get_node (resolve_extensions Ex.reg take_definitions ExH.h) 3 = get_node ExH.h 3 /\ hugr_all (untouchable_op Ex.reg) ExH.body = false /\
+  (* an implementation that keeps the loaded description: the operation is resolved all the same, the document is identical *)
+  hugr_eqb (resolve_extensions Ex.reg keep_loaded ExH.h) ExH.h = false /\
+  rhugr_b Ex.reg ExH.h (resolve_extensions Ex.reg keep_loaded ExH.h) = true /\
+  hugr_doc (resolve_extensions Ex.reg keep_loaded ExH.h) = hugr_doc ExH.h /\ hugr_doc ExH.h <> None.
 Proof. exact exh_nontrivial. Qed.
 
 Print Assumptions C11_resolve_exactly_when_defined.
